@@ -246,7 +246,7 @@ func TestVerifSortReplay(t *testing.T) {
 	}
 	events := make([]sEvent, len(in.Runs))
 	var wg sync.WaitGroup
-	sem := make(chan struct{}, min(4, runtime.GOMAXPROCS(0))) // at most 4 builds at a time (shared machine)
+	sem := make(chan struct{}, min(8, runtime.GOMAXPROCS(0))) // bounded number of builds at a time (shared machine)
 	for i, r := range in.Runs {
 		wg.Add(1)
 		sem <- struct{}{}
